@@ -17,6 +17,16 @@ open Pyg.Init
 /-- the code, executed on every point of its finite domain, behaves exactly as the model -/
 theorem table_agrees : Pyg.Generated.initTable = Pyg.Init.table := by decide +kernel
 
+/-- ... and does so wherever it is started from: from the document root, from below it, or from a
+    sibling directory whose path merely starts with the root's path, `chroot` is followed by
+    `chdir("/")` like from anywhere else (the executed rows equal the model's, which has no notion
+    of a start directory) -/
+theorem start_directory_irrelevant : Pyg.Generated.initTableCwd = Pyg.Init.cwdTable := by decide +kernel
+
+theorem started_anywhere_chdir_follows_chroot :
+    ∀ r ∈ Pyg.Generated.initTableCwd, followedBy .chroot .chdirRoot r.trace = true := by
+  rw [start_directory_irrelevant]; decide +kernel
+
 theorem mem_allCfgs (c : Cfg) : c ∈ allCfgs := by
   rcases c with ⟨t, r, u, g⟩
   cases t <;> cases r <;> cases u <;> cases g <;> decide
